@@ -1,12 +1,13 @@
-import GaeaVerif.Lemmas.PreviewC21Margin
+import GaeaVerif.Lemmas.PreviewC21With
 import GaeaVerif.Lemmas.LexC17Split
 import GaeaVerif.Gen.Consts
 /-
   C21 — Read-only users cannot change data or schema.
 
-  Theorems about `Model/PreviewC21.lean` (parser.Preview, PreviewSpecialComment,
-  StripLeadingComments, SplitMarginComments, isSQLNotAllowedByUser,
-  checkSQLAllowed, doQuery, handleQuery, handleStmtExecute), instantiated with
+  Theorems about `Model/PreviewC21.lean` (parser.Preview, PreviewMainStatement,
+  withMainStatement, StripLeadingComments, SplitMarginComments,
+  isSQLNotAllowedByUser, checkSQLAllowed, doQuery, handleQuery,
+  handleStmtExecute with bound parameters), instantiated with
   the keyword tables the translator extracts from the source on every run
   (`Gen.c21…`).  The tie to the Go code is the correspondence check
   `gvh run C21` plus those generated facts.
@@ -17,7 +18,8 @@ open GaeaVerif GaeaVerif.LexC17 GaeaVerif.PreviewC21
 /-- The tables of the current source, as extracted by the translator. -/
 def genTables : Tables :=
   { sw1 := Gen.c21Switch1, sw2 := Gen.c21Switch2, sw3 := Gen.c21Switch3,
-    unknown := Gen.c21StmtUnknown, comment := Gen.c21StmtComment, notAllowed := Gen.c21NotAllowed }
+    unknown := Gen.c21StmtUnknown, comment := Gen.c21StmtComment, withK := Gen.c21StmtWith,
+    notAllowed := Gen.c21NotAllowed }
 
 /-! ### ties to the source -/
 
@@ -38,37 +40,63 @@ theorem spaces_eq (r : Nat) : r ∈ Gen.c21Spaces ↔ isSpace r = true := by
     decide_eq_true_eq]
   omega
 
-theorem paths_shape : Gen.c21DoQueryChecksFirst = true ∧ Gen.c21CheckShape = true ∧ Gen.c21PathsShape = true := by decide
+theorem paths_shape : Gen.c21DoQueryChecksFirst = true ∧ Gen.c21CheckShape = true ∧ Gen.c21PathsShape = true ∧
+    Gen.c21MainShape = true ∧ Gen.c21PlanChecksTree = true := by decide
+
+/-- `stmtTypeOfNode` (the kind a parsed tree is checked as in `getPlan`): every
+    node type it knows — INSERT/REPLACE, UPDATE, DELETE, LOAD DATA, PREPARE,
+    EXECUTE and the ten DDL statements of the grammar — maps to a refused kind. -/
+theorem node_kinds_refused : Gen.c21NodeKinds.all (fun e => Gen.c21NotAllowed.contains e.2) = true ∧
+    Gen.c21NodeKinds.map (·.1) =
+      ["ast.InsertStmt", "ast.InsertStmt", "ast.UpdateStmt", "ast.DeleteStmt", "ast.LoadDataStmt", "ast.PrepareStmt",
+       "ast.ExecuteStmt", "ast.CreateDatabaseStmt", "ast.DropDatabaseStmt", "ast.CreateTableStmt", "ast.DropTableStmt",
+       "ast.RenameTableStmt", "ast.CreateViewStmt", "ast.CreateIndexStmt", "ast.DropIndexStmt", "ast.AlterTableStmt",
+       "ast.TruncateTableStmt"] := by decide
 
 /-- Statement kinds by name, for readability of the statements below. -/
 theorem rejected_kinds :
     Gen.c21NotAllowed.map (fun k => (Gen.c21StmtKinds.find? (·.2 = k)).map (·.1)) =
-      [some "StmtDelete", some "StmtInsert", some "StmtUpdate", some "StmtReplace", some "StmtDDL", some "StmtLoad"] := by
+      [some "StmtDelete", some "StmtInsert", some "StmtUpdate", some "StmtReplace", some "StmtDDL", some "StmtLoad",
+       some "StmtCallProc", some "StmtPrepare", some "StmtExecute", some "StmtWith"] := by
   decide
 
-/-! ### facts about the ten write keywords in the extracted tables -/
+/-! ### facts about the keywords in the extracted tables -/
 
-/-- For keyword `k`: the first switch maps it to a rejected kind, or the first
-    switch misses it, no key of the second switch starts with its first two
-    letters, and the third switch maps it to a rejected kind. -/
-def kwFact (T : Tables) (k : List Nat) : Bool :=
+/-- The kind `Preview` answers for a text whose first word is keyword `k`,
+    when that can be told from the tables alone: the first switch has `k`, or
+    it misses it, no key of the second switch starts with its first two
+    letters, and the third switch has `k`. -/
+def kwKind (T : Tables) (k : List Nat) : Option Nat :=
   match lookup T.sw1 k with
-  | some kind => T.notAllowed.contains kind
+  | some kind => some kind
   | none =>
-    (match k with
-     | x :: y :: _ => missTwo T.sw2 x y
-     | _ => false) &&
-    (match lookup T.sw3 k with
-     | some kind => T.notAllowed.contains kind
-     | none => false)
+    match k with
+    | x :: y :: _ => if missTwo T.sw2 x y then lookup T.sw3 k else none
+    | _ => none
 
-theorem write_kw_facts : writeKeywords.all (kwFact genTables) = true := by decide
+/-- A kind the read-only check refuses as it is: `isSQLNotAllowedByUser` rejects
+    it and `checkSQLAllowed` does not look further (it is neither StmtComment
+    nor StmtWith). -/
+def Final (T : Tables) (kind : Nat) : Prop :=
+  T.notAllowed.contains kind = true ∧ kind ≠ T.comment ∧ kind ≠ T.withK
+
+instance (T : Tables) (kind : Nat) : Decidable (Final T kind) := by unfold Final; infer_instance
+
+/-- Every refused keyword (the ten write keywords, CALL, PREPARE, EXECUTE) previews as a `Final` kind. -/
+theorem refused_kw_facts : ∀ k ∈ refusedKeywords, ∃ kind, kwKind genTables k = some kind ∧ Final genTables kind := by
+  decide
+
+theorem with_kw_fact : kwKind genTables kwWith = some genTables.withK := by decide
 
 theorem sw2_keys_long : genTables.sw2.all (fun e => decide (2 ≤ e.1.length)) = true := by decide
 
 theorem comment_not_rejected : genTables.notAllowed.contains genTables.comment = false := by decide
 
-/-! ### Preview of a text that starts with a write keyword -/
+theorem with_rejected : genTables.notAllowed.contains genTables.withK = true := by decide
+
+theorem with_ne_comment : genTables.withK ≠ genTables.comment := by decide
+
+/-! ### Preview of a text that starts with a keyword -/
 
 theorem lowerRune_letter (b : UInt8) (h : isAsciiLetterB b = true) : lowerRune b.toNat = asciiLower b := by
   have := letterB b h
@@ -77,13 +105,59 @@ theorem lowerRune_letter (b : UInt8) (h : isAsciiLetterB b = true) : lowerRune b
   · rfl
   · rw [if_neg (by omega), if_neg (by omega)]
 
+/-- `Preview` (after `StripLeadingComments`) of a text whose first word is the
+    ASCII spelling `kw` (any letter case) of a keyword the tables decide. -/
+theorem previewTrimmed_kw (kw rest : Bytes) (kind : Nat) (hne : kw ≠ []) (hletters : ∀ b ∈ kw, isAsciiLetterB b = true)
+    (hstop : KwStop rest) (hk : kwKind genTables (kw.map asciiLower) = some kind) :
+    previewTrimmed genTables (kw ++ rest) = kind := by
+  obtain ⟨b, t, hkw⟩ : ∃ b t, kw = b :: t := by cases kw with | nil => exact absurd rfl hne | cons b t => exact ⟨b, t, rfl⟩
+  have hb := letterB b (hletters b (by rw [hkw]; simp))
+  have hpre : isPrefixB cSlashStarBang (kw ++ rest) = false := by
+    rw [hkw]
+    simp only [isPrefixB, cSlashStarBang, List.cons_append, List.length_cons, List.length_nil, List.take_succ_cons,
+      beq_eq_false_iff_ne, ne_eq, List.cons.injEq, not_and]
+    intro e; rw [e] at hb; exact absurd hb.2 (by decide)
+  have hlw : toLower (firstWord (kw ++ rest)) = kw.map asciiLower := by
+    rw [firstWord_kw kw rest hne hletters hstop, toLower_kw kw hletters]
+  simp only [previewTrimmed, hpre, Bool.false_eq_true, if_false, hlw]
+  simp only [kwKind] at hk
+  cases h1 : lookup genTables.sw1 (kw.map asciiLower) with
+  | some kind' => rw [h1] at hk; simp only [Option.some.injEq] at hk; exact hk
+  | none =>
+    rw [h1] at hk
+    -- the second switch: the statement without margin comments is a prefix of the text
+    have hsw2 : lookup genTables.sw2 (toLower (splitMarginQuery (kw ++ rest))) = none ∧
+        lookup genTables.sw3 (kw.map asciiLower) = some kind := by
+      obtain ⟨m, hm⟩ := splitMarginQuery_prefix (kw ++ rest) (Or.inr ⟨b, t ++ rest, by rw [hkw]; rfl, hletters b (by rw [hkw]; simp)⟩)
+      rw [hm]
+      cases t with
+      | nil => rw [hkw] at hk; simp at hk
+      | cons c t' =>
+        have hc := letterB c (hletters c (by rw [hkw]; simp))
+        rw [hkw] at hk
+        simp only [List.map_cons] at hk
+        split at hk
+        · rename_i hmiss
+          refine ⟨?_, by rw [hkw]; exact hk⟩
+          by_cases hm2 : 2 ≤ m
+          · obtain ⟨m', rfl⟩ : ∃ m', m = m' + 2 := ⟨m - 2, by omega⟩
+            rw [hkw]
+            simp only [List.cons_append, List.take_succ_cons]
+            obtain ⟨r, hr⟩ := toLower_two b c (List.take m' (t' ++ rest)) hb.1 hc.1
+            rw [hr, lowerRune_letter b (hletters b (by rw [hkw]; simp)), lowerRune_letter c (hletters c (by rw [hkw]; simp))]
+            exact lookup_missTwo _ _ _ _ hmiss
+          · exact lookup_short _ _ (toLower_short _ (by simp only [List.length_take]; omega)) sw2_keys_long
+        · exact absurd hk (by simp)
+    simp only [hsw2.1, hsw2.2]
+
 /-- A keyword followed by the rest of the statement: `kw` is an ASCII spelling
-    (any letter case) of one of the write keywords, `rest` is empty or starts
-    with an ASCII byte that ends a word and ends with an ASCII byte that is not
-    white space. -/
+    (any letter case) of one of the refused keywords (INSERT, REPLACE, UPDATE,
+    DELETE, CREATE, ALTER, DROP, TRUNCATE, RENAME, LOAD, CALL, PREPARE,
+    EXECUTE), `rest` is empty or starts with an ASCII byte that ends a word and
+    ends with an ASCII byte that is not white space. -/
 structure KwText (kw rest : Bytes) : Prop where
   letters : ∀ b ∈ kw, isAsciiLetterB b = true
-  isWrite : kw.map asciiLower ∈ writeKeywords
+  isWrite : kw.map asciiLower ∈ refusedKeywords
   stop : KwStop rest
   ending : rest = [] ∨ ∃ s b, rest = s ++ [b] ∧ b.toNat < 0x80 ∧ isSpace b.toNat = false
 
@@ -93,33 +167,33 @@ theorem KwText.ne {kw rest : Bytes} (h : KwText kw rest) : kw ≠ [] := by
   rw [e] at this
   revert this; decide
 
-theorem KwText.solid {kw rest : Bytes} (h : KwText kw rest) : Solid (kw ++ rest) := by
-  have hne := h.ne
+theorem solid_of_letters (kw rest : Bytes) (hne : kw ≠ []) (hletters : ∀ b ∈ kw, isAsciiLetterB b = true)
+    (hend : rest = [] ∨ ∃ s b, rest = s ++ [b] ∧ b.toNat < 0x80 ∧ isSpace b.toNat = false) : Solid (kw ++ rest) := by
   cases hk : kw with
   | nil => exact absurd hk hne
   | cons b t =>
-    have hb := letterB b (h.letters b (by rw [hk]; simp))
-    have hsp : isSpace b.toNat = false := by
-      simp only [isSpace, Bool.or_eq_false_iff, Bool.and_eq_false_iff, decide_eq_false_iff_not]; omega
+    have hb := letterB b (hletters b (by rw [hk]; simp))
+    have hsp : isLeadBlank b.toNat = false := by
+      simp only [isLeadBlank, isSpace, Bool.or_eq_false_iff, Bool.and_eq_false_iff, decide_eq_false_iff_not]; omega
     refine ⟨⟨b, t ++ rest, rfl, hb.1, hsp⟩, ?_⟩
-    rcases h.ending with e | ⟨s, x, e, hx, hsx⟩
+    rcases hend with e | ⟨s, x, e, hx, hsx⟩
     · subst e
       rcases List.eq_nil_or_concat (b :: t) with e' | ⟨init, x, e'⟩
       · simp at e'
       · rw [List.concat_eq_append] at e'
-        have hx := letterB x (h.letters x (by rw [hk, e']; simp))
+        have hx := letterB x (hletters x (by rw [hk, e']; simp))
         refine ⟨init, x, by simp [e'], hx.1, ?_⟩
         simp only [isSpace, Bool.or_eq_false_iff, Bool.and_eq_false_iff, decide_eq_false_iff_not]; omega
     · exact ⟨(b :: t) ++ s, x, by rw [e]; simp, hx, hsx⟩
 
-theorem KwText.stable {kw rest : Bytes} (h : KwText kw rest) : ∀ n, stripLoop n (kw ++ rest) = kw ++ rest := by
+theorem stable_of_letters (kw rest : Bytes) (hne : kw ≠ []) (hletters : ∀ b ∈ kw, isAsciiLetterB b = true) :
+    ∀ n, stripLoop n (kw ++ rest) = kw ++ rest := by
   intro n
   apply stripLoop_solid_nocomment
-  have hne := h.ne
   cases hk : kw with
   | nil => exact absurd hk hne
   | cons b t =>
-    have hb := letterB b (h.letters b (by rw [hk]; simp))
+    have hb := letterB b (hletters b (by rw [hk]; simp))
     cases t with
     | nil =>
       cases rest with
@@ -129,77 +203,54 @@ theorem KwText.stable {kw rest : Bytes} (h : KwText kw rest) : ∀ n, stripLoop 
     | cons c r => simp only [List.cons_append, hasCommentPrefix, Bool.or_eq_false_iff, Bool.and_eq_false_iff,
         decide_eq_false_iff_not]; omega
 
-/-- `Preview` (after `StripLeadingComments`) of a keyword text is a kind the read-only check rejects. -/
+theorem KwText.solid {kw rest : Bytes} (h : KwText kw rest) : Solid (kw ++ rest) :=
+  solid_of_letters kw rest h.ne h.letters h.ending
+
+theorem KwText.stable {kw rest : Bytes} (h : KwText kw rest) : ∀ n, stripLoop n (kw ++ rest) = kw ++ rest :=
+  stable_of_letters kw rest h.ne h.letters
+
+/-- `Preview` (after `StripLeadingComments`) of a keyword text is a kind the read-only check rejects as it is. -/
 theorem previewTrimmed_write (kw rest : Bytes) (h : KwText kw rest) :
-    genTables.notAllowed.contains (previewTrimmed genTables (kw ++ rest)) = true := by
-  have hne := h.ne
-  have hfact : kwFact genTables (kw.map asciiLower) = true :=
-    (List.all_eq_true.mp write_kw_facts) _ h.isWrite
-  obtain ⟨b, t, hk⟩ : ∃ b t, kw = b :: t := by cases kw with | nil => exact absurd rfl hne | cons b t => exact ⟨b, t, rfl⟩
-  have hb := letterB b (h.letters b (by rw [hk]; simp))
-  have hpre : isPrefixB cSlashStarBang (kw ++ rest) = false := by
-    rw [hk]
-    simp only [isPrefixB, cSlashStarBang, List.cons_append, List.length_cons, List.length_nil, List.take_succ_cons,
-      beq_eq_false_iff_ne, ne_eq, List.cons.injEq, not_and]
-    intro e; rw [e] at hb; exact absurd hb.2 (by decide)
-  have hlw : toLower (firstWord (kw ++ rest)) = kw.map asciiLower := by
-    rw [firstWord_kw kw rest hne h.letters h.stop, toLower_kw kw h.letters]
-  simp only [previewTrimmed, hpre, Bool.false_eq_true, if_false, hlw]
-  simp only [kwFact] at hfact
-  cases h1 : lookup genTables.sw1 (kw.map asciiLower) with
-  | some kind => rw [h1] at hfact; exact hfact
-  | none =>
-    rw [h1] at hfact
-    simp only [Bool.and_eq_true] at hfact
-    obtain ⟨hmiss, h3⟩ := hfact
-    -- the second switch: the statement without margin comments is a prefix of the text
-    have hsw2 : lookup genTables.sw2 (toLower (splitMarginQuery (kw ++ rest))) = none := by
-      obtain ⟨m, hm⟩ := splitMarginQuery_prefix (kw ++ rest) (Or.inr ⟨b, t ++ rest, by rw [hk]; rfl, h.letters b (by rw [hk]; simp)⟩)
-      rw [hm]
-      cases t with
-      | nil => rw [hk] at hmiss; simp at hmiss
-      | cons c t' =>
-        have hc := letterB c (h.letters c (by rw [hk]; simp))
-        rw [hk] at hmiss
-        simp only [List.map_cons] at hmiss
-        by_cases hm2 : 2 ≤ m
-        · obtain ⟨m', rfl⟩ : ∃ m', m = m' + 2 := ⟨m - 2, by omega⟩
-          rw [hk]
-          simp only [List.cons_append, List.take_succ_cons]
-          obtain ⟨r, hr⟩ := toLower_two b c (List.take m' (t' ++ rest)) hb.1 hc.1
-          rw [hr, lowerRune_letter b (h.letters b (by rw [hk]; simp)), lowerRune_letter c (h.letters c (by rw [hk]; simp))]
-          exact lookup_missTwo _ _ _ _ hmiss
-        · exact lookup_short _ _ (toLower_short _ (by simp only [List.length_take]; omega)) sw2_keys_long
-    simp only [hsw2]
-    cases h3' : lookup genTables.sw3 (kw.map asciiLower) with
-    | some kind => rw [h3'] at h3; exact h3
-    | none => rw [h3'] at h3; simp at h3
+    Final genTables (previewTrimmed genTables (kw ++ rest)) := by
+  obtain ⟨kind, hk, hfin⟩ := refused_kw_facts _ h.isWrite
+  rw [previewTrimmed_kw kw rest kind h.ne h.letters h.stop hk]
+  exact hfin
 
 /-- Trailing ASCII white space after the statement. -/
 abbrev Tail (tail : Bytes) : Prop := AsciiWs tail
 
-/-- **Preview rejects.** Leading white space and comments (`/* */`, `-- `, `#`,
-    any number, any order), a write keyword in any letter case, the rest of the
+/-- **Preview rejects.** Leading white space, semicolons of empty statements
+    and comments (`/* */`, `-- `, `#`, any number, any order), a write keyword in any letter case, the rest of the
     statement, trailing white space: `Preview` answers a kind that
     `isSQLNotAllowedByUser` rejects for a read-only user. -/
 theorem preview_write (ts : List Trivia) (kw rest tail : Bytes)
     (hts : ∀ t ∈ ts, t.ok = true ∧ t.isXopen = false) (h : KwText kw rest) (ht : Tail tail) :
-    genTables.notAllowed.contains (preview genTables (renderTrivia ts ++ (kw ++ rest) ++ tail)) = true := by
+    Final genTables (preview genTables (renderTrivia ts ++ (kw ++ rest) ++ tail)) := by
   simp only [preview]
   rw [stripLeadingComments_trivia ts (kw ++ rest) tail hts h.solid h.stable ht]
   exact previewTrimmed_write kw rest h
 
-/-- **readonly_rejects (plain and commented statements).** `checkSQLAllowed`
-    returns the read-only error for every such text. -/
+/-- A text whose `Preview` is a `Final` kind is refused. -/
+theorem check_of_final (sql : Bytes) (h : Final genTables (preview genTables sql)) :
+    checkSQLAllowed genTables false sql = true := by
+  simp only [checkSQLAllowed, isSQLNotAllowedByUser, Bool.false_eq_true, if_false]
+  rw [if_neg (by intro e; rcases e with e | e; exact h.2.1 e; exact h.2.2 e)]
+  exact h.1
+
+/-- `PreviewMainStatement` stops at a `Final` kind. -/
+theorem previewMainLoop_final (n : Nat) (sql : Bytes) (h : Final genTables (preview genTables sql)) :
+    previewMainLoop genTables n sql = preview genTables sql := by
+  cases n with
+  | zero => rfl
+  | succ n => simp only [previewMainLoop]; rw [if_neg h.2.1, if_neg h.2.2]
+
+/-- **readonly_rejects (plain and commented statements; also CALL, and PREPARE /
+    EXECUTE sent as queries).** `checkSQLAllowed` returns the read-only error
+    for every such text. -/
 theorem readonly_rejects (ts : List Trivia) (kw rest tail : Bytes)
     (hts : ∀ t ∈ ts, t.ok = true ∧ t.isXopen = false) (h : KwText kw rest) (ht : Tail tail) :
-    checkSQLAllowed genTables false (renderTrivia ts ++ (kw ++ rest) ++ tail) = true := by
-  have hp := preview_write ts kw rest tail hts h ht
-  simp only [checkSQLAllowed, isSQLNotAllowedByUser, Bool.false_eq_true, if_false]
-  have hne : preview genTables (renderTrivia ts ++ (kw ++ rest) ++ tail) ≠ genTables.comment := by
-    intro e; rw [e, comment_not_rejected] at hp; exact absurd hp (by simp)
-  rw [if_neg hne]
-  exact hp
+    checkSQLAllowed genTables false (renderTrivia ts ++ (kw ++ rest) ++ tail) = true :=
+  check_of_final _ (preview_write ts kw rest tail hts h ht)
 
 
 /-! ### statements inside a leading `/*!NNNNN … */` comment -/
@@ -323,32 +374,144 @@ theorem readonly_rejects_special (ts1 ts2 : List Trivia) (v bl kw rest tail : By
     have : (0x2F : UInt8) :: 0x2A :: 0x21 :: (v ++ bl ++ (renderTrivia ts2 ++ (kw ++ rest)))
         = ((0x2F : UInt8) :: 0x2A :: 0x21 :: v ++ bl) ++ (renderTrivia ts2 ++ (kw ++ rest)) := by simp
     rw [this, List.drop_left' (by simp; omega)]
-  have hinner : stripLeadingComments (renderTrivia ts2 ++ (kw ++ rest)) = kw ++ rest := by
-    have := stripLeadingComments_trivia ts2 (kw ++ rest) [] hts2 h.solid h.stable (by intro b hb; simp at hb)
+  have hp : Final genTables (preview genTables (renderTrivia ts2 ++ (kw ++ rest))) := by
+    have := preview_write ts2 kw rest [] hts2 h (by intro b hb; simp at hb)
     simpa using this
-  have hnotpre : isPrefixB cSlashStarBang (kw ++ rest) = false := by
-    obtain ⟨b, t, e, hb, _⟩ := h.solid.first
-    have hne := h.ne
-    cases hk : kw with
-    | nil => exact absurd hk hne
-    | cons c r =>
-      have hc := letterB c (h.letters c (by rw [hk]; simp))
-      simp only [isPrefixB, cSlashStarBang, List.cons_append, List.length_cons, List.length_nil, List.take_succ_cons,
-        beq_eq_false_iff_ne, ne_eq, List.cons.injEq, not_and]
-      intro e'; rw [e'] at hc; exact absurd hc.2 (by decide)
-  have hspecial : previewSpecialComment genTables (renderTrivia ts1 ++ X ++ tail) = preview genTables (kw ++ rest) := by
-    simp only [previewSpecialComment, hstrip]
-    have hlen : X.length + 1 = (X.length - 1) + 1 + 1 := by
-      rw [← hX]; simp only [List.length_cons]; omega
-    rw [hlen]
-    simp only [specialLoop, hXpre, if_true, hdrop, hinner, hnotpre, Bool.false_eq_true, if_false]
-  have hp : genTables.notAllowed.contains (preview genTables (kw ++ rest)) = true := by
-    have := preview_write [] kw rest [] (by intro t ht; simp at ht) h (by intro b hb; simp at hb)
-    simpa [renderTrivia] using this
-  simp only [checkSQLAllowed, isSQLNotAllowedByUser, Bool.false_eq_true, if_false, hprev, if_true, hspecial]
-  exact hp
+  have hmain : previewMainStatement genTables (renderTrivia ts1 ++ X ++ tail) = preview genTables (renderTrivia ts2 ++ (kw ++ rest)) := by
+    simp only [previewMainStatement, previewMainLoop, hprev, if_true, hstrip, dropSpecCodeStart, hXpre, hdrop]
+    exact previewMainLoop_final _ _ hp
+  simp only [checkSQLAllowed, isSQLNotAllowedByUser, Bool.false_eq_true, if_false, hprev, true_or, if_true, hmain]
+  exact hp.1
 
-/-! ### the three entry paths -/
+/-! ### WITH -/
+
+theorem asciiLower_two (kw : Bytes) (X : Bytes) (h3 : 3 ≤ kw.length) (hletters : ∀ b ∈ kw, isAsciiLetterB b = true) :
+    isAsWord (spanLen isIdentByte (kw ++ X)) (kw ++ X) = false := by
+  -- the word is at least as long as the keyword, which has three letters or more
+  have hge : kw.length ≤ spanLen isIdentByte (kw ++ X) := by
+    simp only [spanLen]
+    have hall : ∀ b ∈ kw, isIdentByte b = true := fun b hb => (letter_facts b (hletters b hb)).1
+    rw [List.takeWhile_append_of_pos hall]
+    simp
+  simp only [isAsWord, Bool.and_eq_false_iff, decide_eq_false_iff_not]
+  left; omega
+
+theorem refused_three : ∀ k ∈ refusedKeywords, 3 ≤ k.length := by decide
+
+/-- A main statement that starts with a refused keyword. -/
+theorem mainStart_kw (kw rest : Bytes) (h : KwText kw rest) : MainStart (kw ++ rest) := by
+  have hne := h.ne
+  refine ⟨?_, asciiLower_two kw rest (by have := refused_three _ h.isWrite; simpa using this) h.letters⟩
+  cases hk : kw with
+  | nil => exact absurd hk hne
+  | cons b t => exact ⟨b, t ++ rest, rfl, h.letters b (by rw [hk]; simp)⟩
+
+/-- The word WITH in any letter case. -/
+def IsWith (w : Bytes) : Prop := (∀ b ∈ w, isAsciiLetterB b = true) ∧ w.map asciiLower = kwWith
+
+theorem IsWith.ne {w : Bytes} (h : IsWith w) : w ≠ [] := by
+  intro e; have := h.2; rw [e] at this; revert this; decide
+
+theorem IsWith.ident {w : Bytes} (h : IsWith w) : (WTok.word w).ok = true := by
+  simp only [WTok.ok, Bool.and_eq_true, decide_eq_true_eq, List.all_eq_true]
+  exact ⟨h.ne, fun b hb => (letter_facts b (h.1 b hb)).1⟩
+
+/-- **readonly_rejects (WITH).** Leading white space and comments, the word
+    WITH, the common table expressions — any pieces (words, quoted texts without
+    backslash, comments, parentheses, other characters) with balanced
+    parentheses, where every parenthesis that closes at the outermost level is
+    followed by AS or a comma, except the last —, then a statement that starts
+    with a refused keyword: `checkSQLAllowed` returns the read-only error. -/
+theorem readonly_rejects_with (ts : List Trivia) (w : Bytes) (ctes : List WTok) (kw rest tail : Bytes)
+    (hts : ∀ t ∈ ts, t.ok = true ∧ t.isXopen = false) (hw : IsWith w)
+    (hok : ∀ t ∈ ctes, t.ok = true) (hwf : wfW 0 false (.word w :: ctes) = true)
+    (h : KwText kw rest) (ht : Tail tail) :
+    checkSQLAllowed genTables false (renderTrivia ts ++ (w ++ (renderW ctes ++ (kw ++ rest))) ++ tail) = true := by
+  have hm := mainStart_kw kw rest h
+  -- the text from WITH on
+  generalize hZ : w ++ (renderW ctes ++ (kw ++ rest)) = Z
+  have hZsolid : Solid Z := by
+    rw [← hZ, ← List.append_assoc]
+    have := solid_of_letters w [] hw.ne hw.1 (Or.inl rfl)
+    simp only [List.append_nil] at this
+    obtain ⟨b, t, e, hb, hsb⟩ := this.first
+    obtain ⟨s, x, e2, hx, hsx⟩ := h.solid.last
+    exact ⟨⟨b, t ++ renderW ctes ++ (kw ++ rest), by rw [e]; simp, hb, hsb⟩,
+      ⟨w ++ renderW ctes ++ s, x, by rw [e2]; simp, hx, hsx⟩⟩
+  have hZstable : ∀ n, stripLoop n Z = Z := by
+    rw [← hZ]; exact stable_of_letters w _ hw.ne hw.1
+  have hstrip : stripLeadingComments (renderTrivia ts ++ Z ++ tail) = Z :=
+    stripLeadingComments_trivia ts Z tail hts hZsolid hZstable ht
+  -- what follows the word WITH ends it
+  obtain ⟨n, tl, hR, hhead⟩ := head_rest ctes (kw ++ rest) hm
+  have hwf' := hwf
+  simp only [wfW, Bool.and_eq_true, Bool.or_eq_true, Bool.not_eq_true', isComma, Bool.false_eq_true, or_false, true_or,
+    true_and] at hwf'
+  have hnext : isIdentByte n = false := by
+    have hbd := hwf'.1
+    simp only [boundary] at hbd
+    rcases hhead with hh | ⟨hh, _⟩
+    · rw [hh] at hbd; simpa using hbd
+    · rw [hh] at hbd; simp at hbd
+  have hstop : KwStop (renderW ctes ++ (kw ++ rest)) := by
+    right
+    refine ⟨n, tl, hR, ?_⟩
+    simp only [isIdentByte, isLetter, isDigit, Bool.or_eq_false_iff, Bool.and_eq_false_iff, decide_eq_false_iff_not] at hnext
+    refine ⟨by omega, ?_⟩
+    simp only [isWordEnd, isIdentChar, isLetter, isDigit, isIdentExtend, Bool.or_eq_true, Bool.not_eq_true',
+      Bool.or_eq_false_iff, Bool.and_eq_false_iff, decide_eq_false_iff_not]
+    right; omega
+  have hprev : preview genTables (renderTrivia ts ++ Z ++ tail) = genTables.withK := by
+    simp only [preview, hstrip]
+    rw [← hZ]
+    exact previewTrimmed_kw w _ _ hw.ne hw.1 hstop (by rw [hw.2]; exact with_kw_fact)
+  -- the text starts with a letter: nothing is trimmed in front of WITH
+  have htrim : trimLeftFunc (fun r => !isLetterU r) Z.length Z = Z := by
+    obtain ⟨b, t, e⟩ : ∃ b t, w = b :: t := by cases hw' : w with | nil => exact absurd hw' hw.ne | cons b t => exact ⟨b, t, rfl⟩
+    have hb := letterB b (hw.1 b (by rw [e]; simp))
+    rw [← hZ, e, List.cons_append]
+    apply trimLeft_stop _ _ b _ hb.1
+    simp only [Bool.not_eq_false']
+    exact isLetterU_ascii b.toNat (by omega)
+  have hscan : withMainStatement Z = some (kw ++ rest) := by
+    simp only [withMainStatement]
+    have e : renderW (.word w :: ctes) ++ (kw ++ rest) = Z := by rw [← hZ]; simp [renderW, WTok.render]
+    have hlen : (renderW (.word w :: ctes)).length ≤ Z.length := by rw [← e]; simp
+    have := withMainLoop_toks (.word w :: ctes) 0 false (kw ++ rest) (Z.length + 1)
+      (by intro t ht'; simp only [List.mem_cons] at ht'; rcases ht' with rfl | ht'; exact hw.ident; exact hok t ht')
+      hwf hm (by omega)
+    rw [e] at this
+    exact this
+  have hp : Final genTables (preview genTables (kw ++ rest)) := by
+    have := preview_write [] kw rest [] (by intro t ht'; simp at ht') h (by intro b hb; simp at hb)
+    simpa [renderTrivia] using this
+  have hmain : previewMainStatement genTables (renderTrivia ts ++ Z ++ tail) = preview genTables (kw ++ rest) := by
+    simp only [previewMainStatement, previewMainLoop, hprev, hstrip, htrim, hscan]
+    rw [if_neg with_ne_comment]
+    simp only [if_true]
+    exact previewMainLoop_final _ _ hp
+  simp only [checkSQLAllowed, isSQLNotAllowedByUser, Bool.false_eq_true, if_false, hprev, or_true, if_true, hmain]
+  exact hp.1
+
+/-- **A WITH statement passes only when its main statement was found and passes.**
+    For every text that previews as WITH: if the read-only check lets it
+    through, `withMainStatement` found a main statement (on the text from its
+    first letter) and `PreviewMainStatement` of that statement is a kind the
+    check does not reject.  In particular every WITH statement whose main
+    statement cannot be told (unclosed quote or comment, a backslash inside
+    quotes, a `/*!` comment, nothing after the last parenthesis) is refused. -/
+theorem with_passes_only_through_main (sql : Bytes) (hprev : preview genTables sql = genTables.withK)
+    (hpass : checkSQLAllowed genTables false sql = false) :
+    ∃ main, withMainStatement (trimLeftFunc (fun r => !isLetterU r) (stripLeadingComments sql).length (stripLeadingComments sql)) = some main ∧
+      genTables.notAllowed.contains (previewMainLoop genTables sql.length main) = false := by
+  simp only [checkSQLAllowed, isSQLNotAllowedByUser, Bool.false_eq_true, if_false, hprev, or_true, if_true,
+    previewMainStatement, previewMainLoop] at hpass
+  rw [if_neg with_ne_comment] at hpass
+  cases hm : withMainStatement (trimLeftFunc (fun r => !isLetterU r) (stripLeadingComments sql).length (stripLeadingComments sql)) with
+  | none => rw [hm] at hpass; simp only [with_rejected] at hpass; exact absurd hpass (by simp)
+  | some main => rw [hm] at hpass; exact ⟨main, rfl, hpass⟩
+
+/-! ### the entry paths -/
 
 /-- Texts the read-only check rejects. -/
 def Rejected (sql : Bytes) : Prop := checkSQLAllowed genTables false sql = true
@@ -356,41 +519,66 @@ def Rejected (sql : Bytes) : Prop := checkSQLAllowed genTables false sql = true
 /-- **doQuery.** A rejected text gets the read-only error as the first thing
     `doQuery` does: the outcome carries nothing of what follows the check
     (planning, backend) and does not depend on it. -/
-theorem doQuery_rejects (rest : Bytes → Bool) (sql : Bytes) (h : Rejected sql) :
-    doQuery genTables false rest sql = .rejected := by
+theorem doQuery_rejects (planned : Bytes → Option Nat) (rest : Bytes → Bool) (sql : Bytes) (h : Rejected sql) :
+    doQuery genTables false planned rest sql = .rejected := by
   unfold Rejected at h
   simp only [doQuery, h, if_true]
 
-theorem reject_before_backend (T : Tables) (aw : Bool) (rest rest' : Bytes → Bool) (sql : Bytes)
-    (h : doQuery T aw rest sql = .rejected) : doQuery T aw rest' sql = .rejected := by
+/-- **Plans built from the parsed tree.** Whatever `Preview` made of the text:
+    when `getPlan` builds the plan from the tree the parser returns and that
+    tree is a statement of a refused kind, `doQuery` returns the read-only error
+    (before the plan is built, let alone executed). -/
+theorem planned_tree_checked (planned : Bytes → Option Nat) (rest : Bytes → Bool) (sql : Bytes) (kind : Nat)
+    (hp : planned sql = some kind) (hk : genTables.notAllowed.contains kind = true) :
+    doQuery genTables false planned rest sql = .rejected := by
+  simp only [doQuery, hp, isSQLNotAllowedByUser, Bool.false_eq_true, if_false, hk, if_true]
+  split <;> rfl
+
+theorem reject_before_backend (T : Tables) (aw : Bool) (planned : Bytes → Option Nat) (rest rest' : Bytes → Bool) (sql : Bytes)
+    (h : doQuery T aw planned rest sql = .rejected) : doQuery T aw planned rest' sql = .rejected := by
   simp only [doQuery] at h ⊢
   split at h
   · rename_i hc; rw [if_pos hc]
-  · exact absurd h (by simp)
+  · rename_i hc
+    rw [if_neg hc]
+    split at h
+    · split at h
+      · rename_i hk; rw [if_pos hk]
+      · exact absurd h (by simp)
+    · exact absurd h (by simp)
 
 /-- Only texts that passed the check are handed to what follows it. -/
-theorem passed_not_rejected (rest : Bytes → Bool) (sql : Bytes) (ok : Bool)
-    (h : doQuery genTables false rest sql = .passed ok) : ¬ Rejected sql := by
-  intro hr; rw [doQuery_rejects rest sql hr] at h; exact absurd h (by simp)
+theorem passed_not_rejected (planned : Bytes → Option Nat) (rest : Bytes → Bool) (sql : Bytes) (ok : Bool)
+    (h : doQuery genTables false planned rest sql = .passed ok) : ¬ Rejected sql := by
+  intro hr; rw [doQuery_rejects planned rest sql hr] at h; exact absurd h (by simp)
+
+/-- … and, when the plan is built from the parsed tree, only trees of a kind that is not refused. -/
+theorem passed_tree_not_refused (planned : Bytes → Option Nat) (rest : Bytes → Bool) (sql : Bytes) (ok : Bool) (kind : Nat)
+    (hp : planned sql = some kind) (h : doQuery genTables false planned rest sql = .passed ok) :
+    genTables.notAllowed.contains kind = false := by
+  cases hk : genTables.notAllowed.contains kind with
+  | false => rfl
+  | true => rw [planned_tree_checked planned rest sql kind hp hk] at h; exact absurd h (by simp)
 
 /-- **handleQuery, single statement** (also the path of `handleStmtExecute`):
     the text, without trailing `;`, goes through `doQuery`. -/
-theorem handleQuery_single (aw : Bool) (rest : Bytes → Bool) (sql : Bytes) :
-    handleQuery genTables aw false rest sql = [(trimRightSemi sql, doQuery genTables aw rest (trimRightSemi sql))] := rfl
+theorem handleQuery_single (aw : Bool) (planned : Bytes → Option Nat) (rest : Bytes → Bool) (sql : Bytes) :
+    handleQuery genTables aw false planned rest sql =
+      [(trimRightSemi sql, doQuery genTables aw planned rest (trimRightSemi sql))] := rfl
 
-theorem handleStmtExecute_eq (aw multi : Bool) (rest : Bytes → Bool) (sql : Bytes) :
-    handleStmtExecute genTables aw multi rest sql = handleQuery genTables aw multi rest sql := rfl
+theorem handleStmtExecute_eq (aw multi : Bool) (planned : Bytes → Option Nat) (rest : Bytes → Bool) (sql : Bytes) :
+    handleStmtExecute genTables aw multi planned rest sql = handleQuery genTables aw multi planned rest sql := rfl
 
 /-- **Every path.** Whatever the text and whichever way it comes in (query,
     multi-statement query, prepared statement, with or without multi-statement
     support), every text that reaches `doQuery` and is `Rejected` gets the
     read-only error; so nothing rejected reaches the backend. -/
-theorem readonly_all_paths (multi : Bool) (rest : Bytes → Bool) (sql : Bytes) :
-    ∀ e ∈ handleStmtExecute genTables false multi rest sql,
-      e.2 = doQuery genTables false rest e.1 ∧ (Rejected e.1 → e.2 = .rejected) ∧
+theorem readonly_all_paths (multi : Bool) (planned : Bytes → Option Nat) (rest : Bytes → Bool) (sql : Bytes) :
+    ∀ e ∈ handleStmtExecute genTables false multi planned rest sql,
+      e.2 = doQuery genTables false planned rest e.1 ∧ (Rejected e.1 → e.2 = .rejected) ∧
       (∀ ok, e.2 = .passed ok → ¬ Rejected e.1) := by
   intro e he
-  have hdq : e.2 = doQuery genTables false rest e.1 := by
+  have hdq : e.2 = doQuery genTables false planned rest e.1 := by
     cases multi with
     | false =>
       simp only [handleStmtExecute, handleQuery, Bool.false_eq_true, if_false, List.mem_singleton] at he
@@ -399,22 +587,23 @@ theorem readonly_all_paths (multi : Bool) (rest : Bytes → Bool) (sql : Bytes) 
       simp only [handleStmtExecute, handleQuery, if_true, List.mem_map] at he
       obtain ⟨s, _, rfl⟩ := he
       rfl
-  refine ⟨hdq, fun hr => by rw [hdq]; exact doQuery_rejects rest _ hr, fun ok hok => ?_⟩
+  refine ⟨hdq, fun hr => by rw [hdq]; exact doQuery_rejects planned rest _ hr, fun ok hok => ?_⟩
   rw [hdq] at hok
-  exact passed_not_rejected rest _ ok hok
+  exact passed_not_rejected planned rest _ ok hok
 
 /-- **Inside a multi-statement query.** A rejected piece makes its `doQuery`
     fail, so the loop of `doMultiStmts` stops there: nothing after it is
     executed (C17 `multi_stops_at_first_error`). -/
-theorem multi_stops_at_rejected (rest : Bytes → Bool) (pieces : List Bytes) (p : Bytes) (pre post : List Bytes)
+theorem multi_stops_at_rejected (planned : Bytes → Option Nat) (rest : Bytes → Bool) (pieces : List Bytes) (p : Bytes)
+    (pre post : List Bytes)
     (hp : pieces = pre ++ p :: post) (hr : Rejected p)
-    (hpre : ∀ q ∈ pre, (doQuery genTables false rest q).noError = true) :
-    (runPieces (fun s => (doQuery genTables false rest s).noError) pieces).executed = pre ++ [p] ∧
-    (runPieces (fun s => (doQuery genTables false rest s).noError) pieces).failed = true := by
+    (hpre : ∀ q ∈ pre, (doQuery genTables false planned rest q).noError = true) :
+    (runPieces (fun s => (doQuery genTables false planned rest s).noError) pieces).executed = pre ++ [p] ∧
+    (runPieces (fun s => (doQuery genTables false planned rest s).noError) pieces).failed = true := by
   subst hp
   induction pre with
   | nil =>
-    simp [runPieces, doQuery_rejects rest p hr, QueryOut.noError]
+    simp [runPieces, doQuery_rejects planned rest p hr, QueryOut.noError]
   | cons q t ih =>
     have hq := hpre q (by simp)
     simp only [List.cons_append, runPieces, hq, if_true]
@@ -425,11 +614,186 @@ theorem multi_stops_at_rejected (rest : Bytes → Bool) (pieces : List Bytes) (p
 theorem readwrite_never_rejected (T : Tables) (sql : Bytes) : checkSQLAllowed T true sql = false := by
   simp [checkSQLAllowed, isSQLNotAllowedByUser]
 
+/-! ### prepared statements of the binary protocol with bound parameters -/
+
+/-- The text `GetRewriteSQL` makes starts with the statement's first item
+    (which is not a `?`), whatever is bound. -/
+theorem rewrite_keeps_first_item (nbe : Bool) (args : List StmtBind.Arg) (first : Bytes) (items : List Bytes) (sql : Bytes)
+    (hq : first ≠ [StmtLex.cQMark]) (h : StmtBind.getRewriteSQL nbe (first :: items) args = .ok sql) :
+    ∃ r, sql = first ++ r := by
+  simp only [StmtBind.getRewriteSQL, StmtBind.rewriteLoop, hq, if_false] at h
+  cases hr : StmtBind.rewriteLoop nbe args items 0 with
+  | ok r =>
+    rw [hr] at h
+    simp only [bind, StmtBind.O.bind, StmtBind.O.ok.injEq] at h
+    exact ⟨r, h.symm⟩
+  | err e => rw [hr] at h; simp [bind, StmtBind.O.bind] at h
+  | panic => rw [hr] at h; simp [bind, StmtBind.O.bind] at h
+
+theorem dropWhile_head (p : UInt8 → Bool) : ∀ (l : Bytes) (c : UInt8) (t : Bytes), l.dropWhile p = c :: t → p c = false := by
+  intro l
+  induction l with
+  | nil => intro c t h; simp at h
+  | cons a r ih =>
+    intro c t h
+    by_cases ha : p a = true
+    · simp only [List.dropWhile, ha] at h; exact ih c t h
+    · simp only [List.dropWhile, ha] at h
+      simp only [List.cons.injEq] at h
+      rw [← h.1]; simpa using ha
+
+theorem takeWhile_mem (p : UInt8 → Bool) : ∀ (l : Bytes) (b : UInt8), b ∈ l.takeWhile p → p b = true := by
+  intro l
+  induction l with
+  | nil => intro b h; simp at h
+  | cons a r ih =>
+    intro b h
+    by_cases ha : p a = true
+    · simp only [List.takeWhile, ha, List.mem_cons] at h
+      rcases h with rfl | h
+      · exact ha
+      · exact ih b h
+    · simp [List.takeWhile, ha] at h
+
+theorem dropWhile_nil_all (p : UInt8 → Bool) : ∀ (l : Bytes), l.dropWhile p = [] → ∀ x ∈ l, p x = true := by
+  intro l
+  induction l with
+  | nil => intro _ x h; simp at h
+  | cons a r ih =>
+    intro h x hx
+    by_cases ha : p a = true
+    · simp only [List.dropWhile, ha] at h
+      simp only [List.mem_cons] at hx
+      rcases hx with rfl | hx
+      · exact ha
+      · exact ih h x hx
+    · simp [List.dropWhile, ha] at h
+
+theorem split_ws_tail (y : Bytes) : ∃ rest tail, y = rest ++ tail ∧ (∀ b ∈ tail, isAsciiWs b = true) ∧
+    (rest = [] ∨ ∃ s b, rest = s ++ [b] ∧ isAsciiWs b = false) := by
+  refine ⟨(y.reverse.dropWhile isAsciiWs).reverse, (y.reverse.takeWhile isAsciiWs).reverse, ?_, ?_, ?_⟩
+  · rw [← List.reverse_append, List.takeWhile_append_dropWhile, List.reverse_reverse]
+  · intro b hb
+    rw [List.mem_reverse] at hb
+    exact takeWhile_mem isAsciiWs _ b hb
+  · cases hd : y.reverse.dropWhile isAsciiWs with
+    | nil => left; rfl
+    | cons c t =>
+      right
+      exact ⟨t.reverse, c, by simp, dropWhile_head isAsciiWs _ c t hd⟩
+
+theorem trimRightSemi_append (P y : Bytes) (hP : ∃ s b, P = s ++ [b] ∧ b.toNat ≠ 0x3B) :
+    trimRightSemi (P ++ y) = P ++ trimRightSemi y := by
+  obtain ⟨s, b, rfl, hb⟩ := hP
+  simp only [trimRightSemi, List.reverse_append, List.reverse_cons, List.reverse_nil, List.nil_append, List.singleton_append]
+  cases hd : List.dropWhile (fun x : UInt8 => decide (x.toNat = 0x3B)) y.reverse with
+  | nil =>
+    have hall := dropWhile_nil_all _ _ hd
+    rw [List.dropWhile_append_of_pos hall]
+    simp [List.dropWhile, hb]
+  | cons c t =>
+    have : List.dropWhile (fun x : UInt8 => decide (x.toNat = 0x3B)) (y.reverse ++ b :: s.reverse) = (c :: t) ++ b :: s.reverse := by
+      rw [List.dropWhile_append, hd]; simp
+    rw [this]
+    simp
+
+/-- The last character of the text that is not ASCII white space is an ASCII character. -/
+def EndsAscii (sql : Bytes) : Prop :=
+  ∀ s b tail, sql = s ++ [b] ++ tail → (∀ x ∈ tail, isAsciiWs x = true) → isAsciiWs b = false → b.toNat < 0x80
+
+theorem ascii_not_ws_not_space (b : UInt8) (h1 : b.toNat < 0x80) (h2 : isAsciiWs b = false) : isSpace b.toNat = false := by
+  simp only [isAsciiWs, Bool.or_eq_false_iff, Bool.and_eq_false_iff, decide_eq_false_iff_not] at h2
+  simp only [isSpace, Bool.or_eq_false_iff, Bool.and_eq_false_iff, decide_eq_false_iff_not]
+  omega
+
+/-- **readonly_rejects (prepared statement with bound parameters).** A prepared
+    statement of the binary protocol whose text, up to its first `?`, is leading
+    trivia, a refused keyword and at least one more character that ends the
+    word: whatever values are bound (and whatever the escaping mode), the text
+    `handleStmtExecute` hands to `handleQuery` is refused once its final
+    semicolons are trimmed, as `handleQuery` does. -/
+theorem readonly_rejects_bound (nbe : Bool) (ts : List Trivia) (kw r0 : Bytes) (items : List Bytes) (args : List StmtBind.Arg)
+    (sql : Bytes) (hts : ∀ t ∈ ts, t.ok = true ∧ t.isXopen = false)
+    (hletters : ∀ b ∈ kw, isAsciiLetterB b = true) (hkw : kw.map asciiLower ∈ refusedKeywords)
+    (hr0 : r0 ≠ []) (hstop : KwStop r0)
+    (hrw : StmtBind.getRewriteSQL nbe ((renderTrivia ts ++ (kw ++ r0)) :: items) args = .ok sql)
+    (hend : EndsAscii (trimRightSemi sql)) :
+    checkSQLAllowed genTables false (trimRightSemi sql) = true := by
+  have h3 := refused_three _ hkw
+  simp only [List.length_map] at h3
+  have hne : kw ≠ [] := by intro e; rw [e] at h3; simp at h3
+  -- the bound text keeps the first item
+  obtain ⟨r, hsql⟩ := rewrite_keeps_first_item nbe args _ items sql (by
+    intro e
+    have := congrArg List.length e
+    simp only [List.length_append, List.length_cons, List.length_nil] at this
+    omega) hrw
+  -- the part in front of what follows the keyword ends with a letter
+  have hP : ∃ s b, renderTrivia ts ++ kw = s ++ [b] ∧ b.toNat ≠ 0x3B := by
+    rcases List.eq_nil_or_concat kw with e | ⟨init, x, e⟩
+    · exact absurd e hne
+    · rw [List.concat_eq_append] at e
+      have hx := letterB x (hletters x (by rw [e]; simp))
+      exact ⟨renderTrivia ts ++ init, x, by rw [e]; simp, by omega⟩
+  have htrim : trimRightSemi sql = (renderTrivia ts ++ kw) ++ trimRightSemi (r0 ++ r) := by
+    rw [hsql, show renderTrivia ts ++ (kw ++ r0) ++ r = (renderTrivia ts ++ kw) ++ (r0 ++ r) by simp]
+    exact trimRightSemi_append _ _ hP
+  -- what follows the keyword: the rest of the statement, then white space
+  obtain ⟨rest, tail, hy, htail, hrest⟩ := split_ws_tail (trimRightSemi (r0 ++ r))
+  have htext : trimRightSemi sql = renderTrivia ts ++ (kw ++ rest) ++ tail := by rw [htrim, hy]; simp
+  -- the first character after the keyword is that of `r0`
+  have hstop' : KwStop rest := by
+    cases hrest' : rest with
+    | nil => left; rfl
+    | cons n t =>
+      right
+      rcases hstop with e | ⟨n0, t0, e, hn0, hw0⟩
+      · exact absurd e hr0
+      · -- `trimRightSemi y` is a prefix of `y`
+        have hpre : ∃ m, trimRightSemi (r0 ++ r) = (r0 ++ r).take m := by
+          simp only [trimRightSemi]
+          generalize (r0 ++ r) = y
+          refine ⟨(List.dropWhile (fun x : UInt8 => decide (x.toNat = 0x3B)) y.reverse).length, ?_⟩
+          have h1 := List.takeWhile_append_dropWhile (p := fun x : UInt8 => decide (x.toNat = 0x3B)) (l := y.reverse)
+          have h2 : y = (List.dropWhile (fun x : UInt8 => decide (x.toNat = 0x3B)) y.reverse).reverse ++
+              (List.takeWhile (fun x : UInt8 => decide (x.toNat = 0x3B)) y.reverse).reverse := by
+            rw [← List.reverse_append, h1, List.reverse_reverse]
+          conv => rhs; rw [h2]
+          rw [List.take_left' (by simp)]
+        obtain ⟨m, hm⟩ := hpre
+        rw [hy, hrest', e] at hm
+        cases m with
+        | zero => simp at hm
+        | succ m =>
+          simp only [List.cons_append, List.take_succ_cons, List.cons.injEq] at hm
+          exact ⟨n, t, rfl, by rw [hm.1]; exact hn0, by rw [hm.1]; exact hw0⟩
+  have hending : rest = [] ∨ ∃ s b, rest = s ++ [b] ∧ b.toNat < 0x80 ∧ isSpace b.toNat = false := by
+    rcases hrest with e | ⟨s, b, e, hb⟩
+    · left; exact e
+    · right
+      have hlt := hend (renderTrivia ts ++ kw ++ s) b tail (by rw [htext, e]; simp) htail hb
+      exact ⟨s, b, e, hlt, ascii_not_ws_not_space b hlt hb⟩
+  rw [htext]
+  exact readonly_rejects ts kw rest tail hts ⟨hletters, hkw, hstop', hending⟩ (fun b hb => isAsciiWs_space b (htail b hb))
+
+/-- The same on the path itself: such a prepared statement, executed with any
+    bound values by a read-only user, is refused before anything else happens. -/
+theorem bound_execute_rejected (nbe : Bool) (planned : Bytes → Option Nat) (rest' : Bytes → Bool) (ts : List Trivia) (kw r0 : Bytes) (items : List Bytes)
+    (args : List StmtBind.Arg) (sql : Bytes) (hts : ∀ t ∈ ts, t.ok = true ∧ t.isXopen = false)
+    (hletters : ∀ b ∈ kw, isAsciiLetterB b = true) (hkw : kw.map asciiLower ∈ refusedKeywords)
+    (hr0 : r0 ≠ []) (hstop : KwStop r0)
+    (hrw : StmtBind.getRewriteSQL nbe ((renderTrivia ts ++ (kw ++ r0)) :: items) args = .ok sql)
+    (hend : EndsAscii (trimRightSemi sql)) :
+    handleStmtExecuteBound genTables false false planned rest' nbe ((renderTrivia ts ++ (kw ++ r0)) :: items) args =
+      some [(trimRightSemi sql, .rejected)] := by
+  have h := readonly_rejects_bound nbe ts kw r0 items args sql hts hletters hkw hr0 hstop hrw hend
+  simp only [handleStmtExecuteBound, hrw, handleQuery, Bool.false_eq_true, if_false, doQuery, h, if_true]
+
 /-! ### non-vacuity -/
 
-/-- ` /* c; */ -- x` newline `# y` newline `DrOp` + ` table t` + trailing newline. -/
+/-- `; /* c; */ ;-- x` newline `# y` newline `DrOp` + ` table t` + trailing newline. -/
 def exTrivia : List Trivia :=
-  [.ws [32], .cblock [32, 99, 59, 32], .ws [32], .cdash [32, 120], .chash [32, 121]]
+  [.ws [59, 32], .cblock [32, 99, 59, 32], .ws [32, 59], .cdash [32, 120], .chash [32, 121]]
 
 example : (∀ t ∈ exTrivia, t.ok = true ∧ t.isXopen = false) := by decide
 
@@ -442,5 +806,37 @@ example : isVersion [52, 48, 49, 48, 49] = true ∧ CodeStart (renderTrivia [] +
   simp [renderTrivia] at hc
   subst hc
   decide
+
+/-- `WITH x AS (select ')') , y (a) as (select 1) ` in front of `DrOp table t`. -/
+def exCtes : List WTok :=
+  [.blank (.ws [32]), .word [120], .blank (.ws [32]), .word [65, 83], .blank (.ws [32]), .lpar,
+   .word [115, 101, 108, 101, 99, 116], .blank (.ws [32]), .quoted 0x27 [0x29], .rpar, .blank (.ws [32]), .sym 0x2C,
+   .blank (.cblock [32, 41, 32]), .word [121], .blank (.ws [32]), .lpar, .word [97], .rpar, .blank (.ws [32]), .word [97, 115],
+   .blank (.cdash [32, 40]), .lpar, .word [115, 101, 108, 101, 99, 116], .blank (.ws [32]), .word [49], .sym 0x2D, .word [49], .rpar,
+   .blank (.ws [32])]
+
+example : IsWith [87, 105, 84, 104] := ⟨by decide, by decide⟩
+
+example : (∀ t ∈ exCtes, t.ok = true) ∧ wfW 0 false (.word [87, 105, 84, 104] :: exCtes) = true := by decide
+
+/-- `call p()`, `Prepare s from @q`, `EXECUTE s` are refused like the write statements. -/
+example : KwText [99, 97, 108, 108] [32, 112, 40, 41] ∧ KwText [80, 114, 101, 112, 97, 114, 101] [32, 115] ∧
+    KwText [69, 88, 69, 67, 85, 84, 69] [32, 115] :=
+  ⟨⟨by decide, by decide, Or.inr ⟨0x20, [112, 40, 41], rfl, by decide, by decide⟩, Or.inr ⟨[32, 112, 40], 0x29, rfl, by decide, by decide⟩⟩,
+   ⟨by decide, by decide, Or.inr ⟨0x20, [115], rfl, by decide, by decide⟩, Or.inr ⟨[32], 0x73, rfl, by decide, by decide⟩⟩,
+   ⟨by decide, by decide, Or.inr ⟨0x20, [115], rfl, by decide, by decide⟩, Or.inr ⟨[32], 0x73, rfl, by decide, by decide⟩⟩⟩
+
+/-- `delete from t where a = ?` bound to the string `x'; -- `: the rewritten text ends in the closing quote. -/
+example : StmtBind.getRewriteSQL false
+      [[100, 101, 108, 101, 116, 101, 32, 102, 114, 111, 109, 32, 116, 32, 119, 104, 101, 114, 101, 32, 97, 32, 61, 32], [0x3F]]
+      [.bytes [120, 39, 59, 32, 45, 45, 32]] =
+    .ok [100, 101, 108, 101, 116, 101, 32, 102, 114, 111, 109, 32, 116, 32, 119, 104, 101, 114, 101, 32, 97, 32, 61, 32,
+      39, 120, 39, 39, 59, 32, 45, 45, 32, 39] := by decide
+
+/-- A WITH statement that is let through: `with x as (select 1) select 2`. -/
+example : preview genTables [119, 105, 116, 104, 32, 120, 32, 97, 115, 32, 40, 115, 101, 108, 101, 99, 116, 32, 49, 41, 32,
+      115, 101, 108, 101, 99, 116, 32, 50] = genTables.withK ∧
+    checkSQLAllowed genTables false [119, 105, 116, 104, 32, 120, 32, 97, 115, 32, 40, 115, 101, 108, 101, 99, 116, 32, 49, 41, 32,
+      115, 101, 108, 101, 99, 116, 32, 50] = false := by decide
 
 end GaeaVerif.C21
